@@ -36,6 +36,10 @@ type c16Case struct {
 	KnownPW string `json:"known_pw,omitempty"`
 	// RedirInBody: the return target travels in the request body (form field / JSON member) instead of the query
 	RedirInBody bool `json:"redir_in_body,omitempty"`
+	// FaultAt (locked-pw pair): the n-th backend call of the compared request fails - in both
+	// worlds. A locked account's login makes the same calls whatever the password is, so a
+	// storage blip must not become a password oracle either.
+	FaultAt int `json:"fault_at,omitempty"`
 }
 
 var c16PreludeKinds = []string{"rec-known", "rec-known", "rec-unknown", "login-ok", "login-page", "adv1", "adv45", "adv90", "newsess", "half-session", "half-session", "other-session"}
@@ -211,6 +215,9 @@ func c16Run(c c16Case) *Violation {
 			case "render":
 				q.Fault = harness.FaultPlan{Name: "MailRender", Kind: "generic"}
 			}
+			if c.FaultAt > 0 && c.Kind == "locked-pw" {
+				q.Fault = harness.FaultPlan{At: c.FaultAt, Kind: "generic"}
+			}
 			return w.Do(q)
 		}
 		switch c.Kind {
@@ -322,6 +329,9 @@ func c16Gen(t *rapid.T) c16Case {
 	if c.Kind == "recover-exists" && c.Cfg.Mailer == "" {
 		c.MailFault = pick(t, "mailfault", "", "", "send", "render")
 	}
+	if c.Kind == "locked-pw" && chance(t, "storagefault", 30) {
+		c.FaultAt = rapid.IntRange(1, 4).Draw(t, "faultat")
+	}
 	if chance(t, "prelude", 55) {
 		c.Prelude = rapid.SliceOfN(rapid.SampledFrom(c16PreludeKinds), 1, 4).Draw(t, "preludeops")
 		// a prelude login refreshes the last-attempt stamp (and, for a 2FA account, leaves
@@ -341,10 +351,13 @@ func TestC16(t *testing.T) {
 		c := c16Gen(rt)
 		v := c16Run(c)
 		a := c.Cfg.Accounts[0]
-		cls := fmt.Sprintf("%s|json=%v|%v|%v|cnt=%d|ago=%d|totp=%v|sms=%v|rm=%v|mw=%s|err500=%v", c.Kind, c.Cfg.JSON, c.Cfg.Modules, c.Cfg.Setups, c.Count, c.LastAgoS, a.TOTP, a.Phone != "", c.RM, c.Cfg.Middleware, c.Cfg.Err500) + "|" + strings.Join(c.Prelude, ",") + "|" + c.MailFault + "|" + c.KnownPW + fmt.Sprint(c.RedirInBody)
+		cls := fmt.Sprintf("%s|json=%v|%v|%v|cnt=%d|ago=%d|totp=%v|sms=%v|rm=%v|mw=%s|err500=%v", c.Kind, c.Cfg.JSON, c.Cfg.Modules, c.Cfg.Setups, c.Count, c.LastAgoS, a.TOTP, a.Phone != "", c.RM, c.Cfg.Middleware, c.Cfg.Err500) + "|" + strings.Join(c.Prelude, ",") + "|" + c.MailFault + "|" + c.KnownPW + fmt.Sprint(c.RedirInBody, c.FaultAt)
 		classes := []string{"pair:" + c.Kind}
 		if len(c.Prelude) > 0 {
 			classes = append(classes, "with-prelude")
+		}
+		if c.FaultAt > 0 {
+			classes = append(classes, "storage-fault")
 		}
 		if c.MailFault != "" {
 			classes = append(classes, "mail-fault:"+c.MailFault)
